@@ -2,13 +2,17 @@ import ScrutModel.Model.Newline
 import ScrutModel.Model.Escaping
 import ScrutModel.Model.Grammar
 import ScrutModel.Model.LineParser
+import ScrutModel.Model.Diff
 /-!
-# Model of the test generators on the `scrut create` path (C09)
+# Model of the test generators on the `scrut create` and `scrut update` paths (C09)
 
 Anchors (scrut):
 * `src/generators/outcome.rs`: `looks_like_modifier_or_exit_code`, `generate_testcase_expression`,
-  `generate_expectation_line`, `generate_testcase_exit_code`, `generate_testcase` (the branches
-  `Ok`, `MalformedOutput` for a diff that consists of unexpected lines only, `InvalidExitCode`);
+  `generate_expectation_line`, `generate_testcase_exit_code`, `generate_testcase`: for a test case
+  without expectations (`generateTestcase`, the `create` path: `Ok`, `MalformedOutput` for a diff
+  that consists of unexpected lines only, `InvalidExitCode`) and for a test case with expectations
+  and any diff (`generateTestcaseUpd`, the `update` path; the former is its special case
+  `origs = []`: `GenLemmas.generateTestcase_create_upd`);
 * `src/generators/markdown.rs`: `MarkdownTestCaseGenerator::generate_testcases` for one outcome
   without title, `max_backtick_size`;
 * `src/generators/cram.rs`: `CramTestCaseGenerator::generate_testcases` for one outcome without
@@ -246,5 +250,79 @@ def create (fmt : Format) (m : Mode) (isOther : Char → Bool) (cfg : ConfigDiff
     match fmt with
     | .markdown => markdownDoc cfg g
     | .cram => cramDoc g)
+
+/-! ## `generate_testcase` for a test WITH expectations (`scrut update`)
+
+`Outcome::generate_testcase` of src/generators/outcome.rs, all three branches it renders, for a test
+case that has expectations. The inputs are what the branches read from the outcome:
+* `origs`: `expectation.original_string()` of `testcase.expectations`, by expectation index;
+* `lines`: `split_at_newline` of the stream the test case is validated against (stdout, or stderr
+  for `output_stream: stderr`);
+* the result: `Ok`, `MalformedOutput(diff)` with `diff.lines` as `List Diff.DL` (the `DiffLine`s of
+  `Model/Diff.lean`: output lines are indices into `lines`, expectations are indices into `origs`),
+  `InvalidExitCode { actual, .. }`;
+* `code`: `output.exit_code` (`ExitStatus::Code`).
+The quantifiers of the expectations play no role here: a retained expectation is written back as its
+original text whatever it is. `InternalError`, `Timeout`, `Skipped` are `bail!`s (an error, no text):
+not part of this function.
+
+`none` = a Rust panic (`expression_lines[0]` of an empty command), or an input that no `Outcome` can
+hold: in Rust a `DiffLine` carries the expectation and the line bytes themselves, so an index outside
+`origs` / `lines` has no counterpart (the driver answers `crash`, the harness never sends one). -/
+
+/-- `outcome.result`: the kinds that `generate_testcase` renders -/
+inductive UpdResult where
+  | ok
+  | malformed (d : List Diff.DL)
+  | invalidExit (actual : Int)
+  deriving DecidableEq, Repr
+
+/-- the output lines a `DiffLine::UnexpectedLines { lines }` holds -/
+def linesAt (lines : List (List UInt8)) : List Nat → Option (List (List UInt8))
+  | [] => some []
+  | i :: is =>
+    match lines[i]?, linesAt lines is with
+    | some l, some r => some (l :: r)
+    | _, _ => none
+
+/-- the loop `for diff_line in diff.lines.iter()`: a `MatchedExpectation` is written back as
+`expectation.original_string().assure_newline()` (whatever lines it holds), the lines of
+`UnexpectedLines` go through `generate_expectation_line` one by one, an `UnmatchedExpectation` is
+dropped (`_ => continue`) -/
+def diffBody (m : Mode) (isOther : Char → Bool) (origs : List (List Char)) (lines : List (List UInt8)) :
+    List Diff.DL → Option (List Char)
+  | [] => some []
+  | .matched ei _ :: r =>
+    match origs[ei]?, diffBody m isOther origs lines r with
+    | some o, some t => some (assureNewlineC o ++ t)
+    | _, _ => none
+  | .unmatched _ :: r => diffBody m isOther origs lines r
+  | .unexpected is :: r =>
+    match (linesAt lines is).bind (expectationLines m isOther), diffBody m isOther origs lines r with
+    | some e, some t => some (e ++ t)
+    | _, _ => none
+
+/-- `generate_testcase`:
+* `Ok`: command, the original text of every expectation (`assure_newline`), `[code]` iff `code ≠ 0`;
+* `MalformedOutput(diff)`: command, `diffBody`, `[code]` iff `code ≠ 0`
+  (`generate_testcase_exit_code` reads `output.exit_code`);
+* `InvalidExitCode { actual }`: command, EVERY line of the stream through
+  `generate_expectation_line` -- all old expectations are discarded --, `[actual]` iff `actual ≠ 0`
+  (fix 4ef7b15: `[0]` is not written). -/
+def generateTestcaseUpd (m : Mode) (isOther : Char → Bool) (cmd : List Char) (origs : List (List Char))
+    (res : UpdResult) (lines : List (List UInt8)) (code : Int) : Option (List Char) :=
+  match expression cmd with
+  | none => none
+  | some ex =>
+    match res with
+    | .ok => some (ex ++ origs.flatMap assureNewlineC ++ exitCodeOpt code)
+    | .malformed d => (diffBody m isOther origs lines d).map (fun b => ex ++ b ++ exitCodeOpt code)
+    | .invalidExit actual => (expectationLines m isOther lines).map (fun e => ex ++ e ++ exitCodeOpt actual)
+
+/-- `TestCase::validate` on `ExitStatus::Code(code)`: the exit-code gate (`expected.unwrap_or(0)`)
+comes first, then the diff `d` of the expectations against the selected stream -/
+def updResult (expected : Option Int) (d : List Diff.DL) (code : Int) : UpdResult :=
+  if code ≠ expected.getD 0 then .invalidExit code
+  else if Diff.hasDiff d then .malformed d else .ok
 
 end Scrut.Gen
